@@ -457,7 +457,9 @@ def to_int(interp, x=0, base=10):
 
 # -- struct ---------------------------------------------------------------------
 
-_FMT = {"B": 1, "H": 2, "I": 4, "L": 4, "Q": 8}
+_FMT = {"B": 1, "H": 2, "I": 4, "L": 4, "Q": 8,
+        # signed (two's complement): a negative width marks them
+        "b": -1, "h": -2, "i": -4, "l": -4, "q": -8}
 
 
 def _parse_fmt(fmt):
@@ -496,9 +498,16 @@ def struct_pack(interp, fmt, *vals):
     for w, v in zip(sizes, vals):
         if not isinstance(v, (int, SInt)):
             raise struct.error("required argument is not an integer")
-        if not interp.truth(band(v >= 0, v < 256 ** w)):
-            raise struct.error("argument out of range")
-        t = num_term(v)
+        if w < 0:
+            w = -w
+            if not interp.truth(band(v >= -(256 ** w) // 2, v < (256 ** w) // 2)):
+                raise struct.error("argument out of range")
+            t = num_term(v)
+            t = z3.If(t < 0, t + 256 ** w, t)  # two's complement
+        else:
+            if not interp.truth(band(v >= 0, v < 256 ** w)):
+                raise struct.error("argument out of range")
+            t = num_term(v)
         # digits as fresh byte variables tied to the value by one linear equation (the base-256
         # representation is unique, so this is exact and keeps div/mod out of the sequence terms)
         digits = [z3.Int(ctx().fresh_name("pk")) for _ in range(w)]
@@ -516,18 +525,21 @@ def struct_unpack(interp, fmt, data):
         return struct.unpack(fmt, data)
     axiom("struct.unpack('>B/H/I/L/Q'): inverse of pack, struct.error unless len(data)==calcsize")
     sizes = _parse_fmt(fmt)
-    total = sum(sizes)
+    total = sum(abs(w) for w in sizes)
     if not interp.truth(slen(data) == total):
         raise struct.error("unpack requires a buffer of %d bytes" % total)
     t = seq_term(data)
     out = []
     pos = 0
-    for w in sizes:
+    for sw in sizes:
+        w = abs(sw)
         v = z3.IntVal(0)
         for k in range(w):
             e = t[pos + k]
             ctx().assume(z3.And(e >= 0, e <= 255))
             v = v * 256 + e
+        if sw < 0:
+            v = z3.If(v >= (256 ** w) // 2, v - 256 ** w, v)  # two's complement
         out.append(mk_num(v))
         pos += w
     return tuple(out)
